@@ -478,3 +478,47 @@ def is_zero_test(g, x):
     if g['kind'] not in ('eq', 'abs_diff', 'relative', 'ulps'):
         return False
     return (A.eq(g['a'], x) and A.eq(g['b'], ZERO)) or (A.eq(g['b'], x) and A.eq(g['a'], ZERO))
+
+
+def check_fold(run, S, name, init_exp, step, rule='K7 fold pattern', what='sum'):
+    """The root must be exactly one Iterator::fold(iter, init, f): init == init_exp (flat list of El), and the
+    separately summarised callable f(acc, item) must satisfy step(acc_leaves, item_leaves, result_leaves) -> bool.
+    The root's result must be the fold's result itself."""
+    sr = single_ret(run, S, name)
+    if sr is None:
+        return False
+    r, leaf = sr
+    where = r.get('span')
+    key = '%s:%s' % (run.prop, name)
+    folds = [e for e in leaf['trace'] if e['fn'] == 'core::iter::traits::iterator::Iterator::fold']
+    if not run.ob(key + ':fold', len(folds) == 1 and len(leaf['trace']) == 1, rule=rule, expected='the body is one Iterator::fold over the argument iterator', found=[e['fn'] for e in leaf['trace']], where=where):
+        return False
+    e = folds[0]
+    cv = Conv(S)
+    itv = e['args'][0]
+    run.ob(key + ':iter', itv.get('t') is not None and S.terms[itv['t']] == ['v', 'a0'], rule=rule, expected='folds the caller\'s iterator itself', found=S.showval(itv)[:100], where=where)
+    init = flat(cv.val(e['args'][1]))
+    ok = len(init) == len(init_exp) and all(A.eq(el_of(x), y) for x, y in zip(init, init_exp))
+    run.ob(key + ':init', ok, rule=rule, expected='initial accumulator = %s' % [A.show(x) for x in init_exp], found=[A.show(el_of(x)) if isinstance(x, (El, int)) else str(x) for x in init], where=where)
+    lam = e.get('lambda', {})
+    if not run.ob(key + ':callable', 'out' in lam and lam['out']['k'] == 'ret', rule=rule, expected='the folding callable summarises to one Return', found=str(lam)[:300], where=where):
+        return False
+    n = len(init_exp)
+    res = flat(cv.val(lam['out']['v']))
+    names = [t_[1] for t_ in S.terms if t_[0] == 'v' and (t_[1].startswith('acc') or t_[1].startswith('item'))]
+    acc_names = sorted([x for x in set(names) if x.startswith('acc')], key=lambda s_: names.index(s_))
+    item_names = sorted([x for x in set(names) if x.startswith('item')], key=lambda s_: names.index(s_))
+    okstep = len(res) == n and step(res)
+    run.ob(key + ':step', okstep, rule=rule, expected='callable(acc, item) = acc %s item, accumulator on the left' % ('+' if what == 'sum' else '*'), found=[A.show(x) if isinstance(x, El) else str(x) for x in res][:6], where=where)
+    # result of the root is the fold result
+    rv = leaf['v']
+    rt = flat(cv.val(rv))
+    ft = e['ret']
+    want = flat(cv.val(_shape_like(S, rv, ft)))
+    run.ob(key + ':result', len(rt) == len(want) and all(A.eq(el_of(x), el_of(y)) for x, y in zip(rt, want)), rule=rule, expected='returns the fold result unchanged', found=S.showval(rv)[:120], where=where)
+    return True
+
+
+def _shape_like(S, v, t):
+    """the engine shapes an uninterpreted result of term t as nested proj(t, i); rebuild that shape following v"""
+    return v
